@@ -44,7 +44,10 @@ Apply(m, e) ==
              (IF e.partial = 1 THEN m
               ELSE IF e.op # 0 /\ Has(m.ops, e.op) /\ e.type \in {"PUBLISH", "SUBSCRIBE", "UNSUBSCRIBE"} /\ (e.type # "PUBLISH" \/ e.qos > 0)
                    THEN [m EXCEPT !.ops[e.op].w = e.t, !.ops[e.op].sentConn = TRUE, !.owner = Put(@, e.pid, e.op)]
-              ELSE IF e.type = "PUBREL" /\ Has(m.owner, e.pid) THEN [m EXCEPT !.ops[m.owner[e.pid]].sentConn = TRUE]
+              \* on a resumed connection the PUBREL is the operation's packet: if its PUBLISH was not written on this
+              \* connection the clock starts with the PUBREL
+              ELSE IF e.type = "PUBREL" /\ Has(m.owner, e.pid) /\ Has(m.ops, m.owner[e.pid])
+                   THEN [m EXCEPT !.ops[m.owner[e.pid]].sentConn = TRUE, !.ops[m.owner[e.pid]].w = IF @ = -1 THEN e.t ELSE @]
               ELSE m)
     ELSE IF Follower(e) THEN m
     ELSE LET d == Deferred(m, e) IN
